@@ -31,6 +31,9 @@ def run(chk):
                      ("R08.3", "automaton state / predictor typestate"), ("R08.4", "no shared mutable state behind &Predictor"), ("R08.5", "lifetime witness")):
         chk.rule(rid, txt)
     c05.kill_rules(chk, w)
+    # the tag slots of a reused sentence: tags.len() == n_tags * len() at every exit (shared with C05)
+    chk.rule("R05.3", "tags length form == n_tags form * len() at every exit of a function that changes either (shared with C05)")
+    c05.r053(chk, w)
     R = effects.ReadsBeforeKill(w, C.summaries(w))
     for fn, allowed in ((C.P + "::predict", ALLOWED_PREDICT), (C.P + "::predict_tags", ALLOWED_TAGS)):
         if chk.config != "W" and w.body(fn) is None:
